@@ -625,6 +625,10 @@ pub fn to_quizx_circuit(c: &HCirc) -> quizx::circuit::Circuit {
             GK::Rz(n, d) | GK::Rx(n, d) => {
                 q.add_gate_with_phase(g.k.name(), g.qs.clone(), Rational64::new(n, d));
             }
+            GK::RzMix(..) | GK::RxMix(..) => {
+                let (n, d) = g.k.phase().unwrap();
+                q.add_gate_with_phase(g.k.name(), g.qs.clone(), Rational64::new(n, d));
+            }
             _ => q.add_gate(g.k.name(), g.qs.clone()),
         }
     }
@@ -667,6 +671,10 @@ pub fn circuit_to_spec(c: &HCirc) -> Option<GSpec> {
             }
             k => match k {
                 GK::Rx(n, dd) => {
+                    attach(&mut g, &mut cur, &mut pend, gate.qs[0], 2, n, dd);
+                }
+                GK::RxMix(..) => {
+                    let (n, dd) = k.phase()?;
                     attach(&mut g, &mut cur, &mut pend, gate.qs[0], 2, n, dd);
                 }
                 GK::X => {
